@@ -157,7 +157,7 @@ MODE_TEMPLATES = [
     "foo.bar?.baz |> qux", ":sym :\"quoted sym\" :+", "@ivar @\"quoted\" $glob", "A::B::\"C d\"", "1...5 1<.<5 a <=> b",
     "if a then b else c end", "def foo(a: Int): String; end", "\n\n\nfoo\n\n", "a\r\n\r\nb\r\n", "\"a\r\nb\"", "'a\r\nb'",
     "é + ñ", "日本語 = \"日本語\"", "`é`", "\"${\"", "\"#{", "%/${", "\\w[", "%/abc", "\"abc", "'abc", "`a", "#[ abc",
-    "##[ abc", "\"\\", "\"\\x", "\"\\u00", "1e", "0x", "@\"abc", ":\"abc", "\"${a\n}\"", "%/a\nb/x",
+    "##[ abc", "\"\\", "\"\\x", "\"\\u00", "1e", "0x", "@\"abc", ":\"abc", "\"${a\n}\"", "%/a\nb/x", "%/a\\\nb/ + c\nd", "%/\\\n\\\n/\nx = 1", "\"a\\\nb\" + c\nd", "`\\\n`\nx",
     "macro foo!; end", "foo!(1)", "%[1, 2] ^[1] %{a: 1} { a: 1 } [1, 2]", "|a| -> a", "a ||= b &&= c ??= d",
     "<<~HERE\n  a\nHERE\n", "x = 1 # c\r\n# d\r\ny", "\ufeffa", "a\tb\u00a0c\u2028d", "\"\\\n\"", "'\\''",
 ]
